@@ -17,7 +17,7 @@ ASSUMPTIONS = ['consumers drain resource streams in order (rely P-seq); discharg
 
 ITEMS = [
     Item('printer.func', S.sym_printer, [], 'dataflows/processors/printer.py::printer.func'),
-    Item('printer.unselected', lambda vc: K10.sym_printer(vc, kinds=('list', 'str')), [], 'dataflows/processors/printer.py::printer.func'),
+    [i for i in K10.ITEMS if i.name == 'printer.step'][0],
     Item('finalizer', S.sym_finalizer, [], 'dataflows/processors/finalizer.py::finalizer.get_iterator.func'),
     Item('DataStreamProcessor.defaults', S.sym_dsp_base, [], 'dataflows/base/datastream_processor.py::DataStreamProcessor.process_resource'),
     Item('stream.res_writer', S.sym_res_writer, [], 'dataflows/processors/stream.py::stream.res_writer'),
